@@ -311,3 +311,66 @@ v("arrays-inplace", ["C14"], "wfsa/field_wfsa.py", "            (w, VA, VB) = wo
 v("log-add-is-guards", ["C16", "C08"], "semiring.py", "        if self == Log.zero:\n            return other\n        if other == Log.zero:\n            return self\n        if self.score > other.score:",
   "        if self is Log.zero:\n            return other\n        if other is Log.zero:\n            return self\n        if self.score > other.score:", "SR-TABLE")
 v("wfsacall-early-exit", ["C11"], "wfsa/base.py", "            prev = curr\n        total = self.R.zero", "            if len(curr) == 0:\n                return self.R.zero\n            prev = curr\n        total = self.R.zero", "PIPE-WFSACALL")
+
+# ------------------------------------------------------------------ rules added in the third pass
+v("memo-stale-depgraph", ["C08"], "cfg.py", "        deps = WeightedGraph(Boolean)\n        for r in self:\n            for y in r.body:\n                deps[r.head, y] += Boolean.one",
+  "        return self._dependency_graph\n\n    @cached_property\n    def _dependency_graph(self):\n        deps = WeightedGraph(Boolean)\n        for r in self:\n            for y in r.body:\n                deps[r.head, y] += Boolean.one",
+  "MEMO-STALE")
+v("memo-stale-lazy-field", ["C08"], "cfg.py", "        deps = self.dependency_graph()\n        blocks = deps.blocks",
+  "        if getattr(self, '_deps', None) is None:\n            self._deps = self.dependency_graph()\n        deps = self._deps\n        blocks = deps.blocks", "MEMO-STALE")
+v("rescale-not-cumulative", ["C04"], "parse/earley_rescaled.py", "            next_col.rescale = num / den * prev_col.rescale", "            next_col.rescale = num / den", "FACTOR-RESCALE")
+v("rescale-benign-commuted", ["C04"], "parse/earley_rescaled.py", "            next_col.rescale = num / den * prev_col.rescale", "            next_col.rescale = prev_col.rescale * num / den", None)
+v("complement-flattened", ["C18"], "lark_interface.py", "            return charset - set(fsm.alphabet)",
+  "            explicit = set().union(*(s for s in fsm.alphabet if s is not anything_else))\n            return charset - explicit", "COMPLEMENT")
+v("complement-none", ["C18"], "lark_interface.py", "            return charset - set(fsm.alphabet)", "            return charset", "COMPLEMENT")
+v("complement-benign-comp", ["C18"], "lark_interface.py", "            return charset - set(fsm.alphabet)",
+  "            explicit = {s for s in fsm.alphabet if s is not anything_else}\n            return charset - explicit", None)
+v("deadstates-one-sweep", ["C18"], "lark_interface.py", "        m.add_I(name(fsm.initial), 1)\n\n        rejection_states = [e for e in fsm.states if not fsm.islive(e)]",
+  "        m.add_I(name(fsm.initial), 1)\n\n        live = set(fsm.finals)\n        for e in sorted(fsm.states, reverse=True):\n            if any(j in live for j in fsm.map[e].values()):\n                live.add(e)\n        rejection_states = fsm.states - live",
+  "DEADSTATES")
+v("deadstates-benign-set", ["C18"], "lark_interface.py", "        m.add_I(name(fsm.initial), 1)\n\n        rejection_states = [e for e in fsm.states if not fsm.islive(e)]",
+  "        m.add_I(name(fsm.initial), 1)\n\n        rejection_states = {e for e in fsm.states if not fsm.islive(e)}", None)
+v("tocfg-stale-IF", ["C17"], "wfsa/base.py", None, None, "NS-TOCFG", edits=[
+  ("        V = self.alphabet - {EPSILON}\n        if not self.states.isdisjoint(V):", "        V = self.alphabet - {EPSILON}\n        initial = self.I\n        if not self.states.isdisjoint(V):"),
+  ("        if recursion == \"right\":\n            # add production rule for initial states\n            for i, w in self.I:",
+   "        if recursion == \"right\":\n            # add production rule for initial states\n            for i, w in initial:")])
+v("maxplus-finite-zero", ["C16"], "semiring.py", "MaxPlus.zero = MaxPlus(-np.inf)", "MaxPlus.zero = MaxPlus(np.finfo(np.float64).min)", "SR-TABLE")
+v("maxplus-benign-float-inf", ["C16"], "semiring.py", "MaxPlus.zero = MaxPlus(-np.inf)", "MaxPlus.zero = MaxPlus(float('-inf'))", None)
+v("ucycle-some-cycle", ["C06"], "cfg.py", None, None, "GUARD-UCYCLE", edits=[
+  ("        bucket = G.buckets\n\n        acyclic = set()", "        acyclic = set()"),
+  ("        # run Lehmann's on each cylical SCC\n", "        # run Lehmann's on each cylical SCC\n        cyclic = set()\n"),
+  ("                    continue\n\n            for X1, X2 in W:\n                new.add(W[X1, X2], X1, bot(X2))", "                    continue\n\n            cyclic.update(nodes)\n            for X1, X2 in W:\n                new.add(W[X1, X2], X1, bot(X2))"),
+  ("            if len(r.body) == 1 and bucket.get(r.body[0]) == bucket[r.head]:", "            if len(r.body) == 1 and r.head in cyclic and r.body[0] in cyclic:")])
+v("tarjan-benign-merged", ["C06"], "linear.py", None, None, None, edits=[
+  ("                # node on the cycle in the DFS.\n                lowest[v] = min(lowest[v], lowest[w])\n", "                # node on the cycle in the DFS.\n"),
+  ("            elif w in trail:\n                # Collapsing cycles.  If `w` comes before `v` in dfs and `w` is\n                # on the stack, then we've detected a cycle and we can start\n"
+   "                # collapsing values in the SCC.  It might not be the maximal\n                # SCC. The min and stack will take care of that.\n                lowest[v] = min(lowest[v], lowest[w])",
+   "            elif w not in trail:\n                continue\n            lowest[v] = min(lowest[v], lowest[w])")])
+v("tarjan-merged-no-stack-test", ["C06"], "linear.py", None, None, "TARJAN", edits=[
+  ("                # node on the cycle in the DFS.\n                lowest[v] = min(lowest[v], lowest[w])\n", "                # node on the cycle in the DFS.\n"),
+  ("            elif w in trail:\n                # Collapsing cycles.  If `w` comes before `v` in dfs and `w` is\n                # on the stack, then we've detected a cycle and we can start\n"
+   "                # collapsing values in the SCC.  It might not be the maximal\n                # SCC. The min and stack will take care of that.\n                lowest[v] = min(lowest[v], lowest[w])",
+   "            lowest[v] = min(lowest[v], lowest[w])")])
+_BYTES_OLD = ("                if len(bs) == 1:\n                    byte_wfsa.add_arc(i, bs[0], j, w)\n                else:  # Multi-byte transition\n"
+              "                    curr = get_new_state()\n                    byte_wfsa.add_arc(i, bs[0], curr, self.R.one)\n"
+              "                    for b in bs[1:-1]:\n                        next_state = get_new_state()\n"
+              "                        byte_wfsa.add_arc(curr, b, next_state, self.R.one)\n                        curr = next_state\n"
+              "                    byte_wfsa.add_arc(curr, bs[-1], j, w)")
+_BYTES_UNIFORM = ("                curr = i\n                for b in bs[:-1]:\n                    next_state = get_new_state()\n"
+                  "                    byte_wfsa.add_arc(curr, b, next_state, self.R.one)\n                    curr = next_state\n"
+                  "                byte_wfsa.add_arc(curr, bs[-1], j, w)")
+v("bytes-benign-uniform-chain", ["C17", "C19"], "wfsa/base.py", _BYTES_OLD, _BYTES_UNIFORM, None)
+v("bytes-uniform-skips-first", ["C17", "C19"], "wfsa/base.py", _BYTES_OLD, _BYTES_UNIFORM.replace("bs[:-1]", "bs[1:-1]"), "FACTOR-BYTES")
+v("bytes-uniform-stale-last", ["C17", "C19"], "wfsa/base.py", _BYTES_OLD, _BYTES_UNIFORM.replace("add_arc(curr, bs[-1], j, w)", "add_arc(next_state, bs[-1], j, w)"), "FACTOR-BYTES")
+
+# ------------------------------------------------------------------ helper-inlined view (sa/inline.py)
+_SOLVE_OLD = ("            # Compute the total weight of entering the block from the right at\n            # each entry point j in the block\n"
+              "            enter = self.WeightType.chart()\n            for j in block:\n                enter[j] += b[j]\n"
+              "                for k in self.outgoing[j]:\n                    enter[j] += self.E[j, k] * sol[k]\n")
+_SOLVE_CALL = "            enter = self._enter_from_right(block, b, sol)\n"
+_SOLVE_HELPER = ("    def _enter_from_right(self, block, b, sol):\n        enter = self.WeightType.chart()\n        for j in block:\n            enter[j] += b[j]\n"
+                 "            for k in self.outgoing[j]:\n                enter[j] += self.E[j, k] * sol[k]\n        return enter\n\n    def _closure(self, A, N):")
+v("inline-benign-extracted-method", ["C15", "C08", "C06"], "linear.py", None, None, None,
+  edits=[(_SOLVE_OLD, _SOLVE_CALL), ("    def _closure(self, A, N):", _SOLVE_HELPER)])
+v("inline-extracted-method-broken", ["C15", "C08", "C06"], "linear.py", None, None, "ANALYSIS-ERROR",
+  edits=[(_SOLVE_OLD, _SOLVE_CALL), ("    def _closure(self, A, N):", _SOLVE_HELPER.replace("self.E[j, k] * sol[k]", "sol[k] * self.E[j, k]"))])
